@@ -61,6 +61,21 @@ type ChoicePoint struct {
 	N          uint8 // number of options
 	Chosen     uint8
 	CostlyFrom uint8 // options with index >= CostlyFrom count as one preemption/deviation
+	// Linear (delay bounding): option i >= CostlyFrom costs i-CostlyFrom+1.
+	Linear bool
+	// TimerAt is the index of the "alarm fires early" option (cost 1), or 255.
+	TimerAt uint8
+}
+
+// Cost returns what taking option a adds to the deviation count.
+func (p ChoicePoint) Cost(a int) int {
+	if a < int(p.CostlyFrom) {
+		return 0
+	}
+	if p.Linear && a != int(p.TimerAt) {
+		return a - int(p.CostlyFrom) + 1
+	}
+	return 1
 }
 
 // Sched is the state of one execution.
@@ -97,6 +112,14 @@ type Sched struct {
 type Options struct {
 	MaxSteps int  // scheduling steps before the execution is cut ("steplimit")
 	Trace    bool // keep a human-readable trace
+	// DelayBounding switches from preemption bounding to delay bounding (Emmi,
+	// Qadeer, Rakamaric, POPL 2011) for programs with many threads: the default
+	// scheduler is deterministic (the running thread continues; when it blocks
+	// or ends, the next enabled thread in round-robin order runs) and EVERY
+	// departure from it is counted: running the i-th other thread instead
+	// costs i, a non-default select case / rendezvous partner / map order /
+	// alarm order costs 1, an alarm fired early costs 1.
+	DelayBounding bool
 	// LegacyTimerChan selects the pre-Go-1.23 timer channel semantics (buffered
 	// channel, Stop/Reset do not drain a value that was already sent).
 	LegacyTimerChan bool
@@ -271,7 +294,18 @@ func (s *Sched) enabled(t *Thread) bool {
 }
 
 // choose resolves one decision with n options.
-func (s *Sched) choose(n, costlyFrom int) int {
+func (s *Sched) choose(n, costlyFrom int) int { return s.choose2(n, costlyFrom, false, 255) }
+
+// chooseData resolves a data decision (select case, partner, map order, alarm
+// order): free under preemption bounding, one deviation under delay bounding.
+func (s *Sched) chooseData(n int) int {
+	if s.opt.DelayBounding {
+		return s.choose2(n, 1, false, 255)
+	}
+	return s.choose2(n, n, false, 255)
+}
+
+func (s *Sched) choose2(n, costlyFrom int, linear bool, timerAt int) int {
 	if n <= 1 {
 		return 0
 	}
@@ -291,10 +325,9 @@ func (s *Sched) choose(n, costlyFrom int) int {
 		s.finish("replay-error", fmt.Sprintf("choice point %d reached but only %d choices were recorded", pos, len(s.prefix)))
 		s.cur.parkOrExit()
 	}
-	s.points = append(s.points, ChoicePoint{N: uint8(n), Chosen: uint8(c), CostlyFrom: uint8(costlyFrom)})
-	if c >= costlyFrom {
-		s.cost++
-	}
+	p := ChoicePoint{N: uint8(n), Chosen: uint8(c), CostlyFrom: uint8(costlyFrom), Linear: linear, TimerAt: uint8(timerAt)}
+	s.points = append(s.points, p)
+	s.cost += p.Cost(c)
 	return c
 }
 
@@ -345,9 +378,20 @@ func (s *Sched) schedule(t *Thread) {
 		if curEnabled {
 			en = append(en, t)
 		}
-		for _, u := range s.threads {
-			if u != t && s.enabled(u) {
-				en = append(en, u)
+		if s.opt.DelayBounding {
+			// round-robin order starting after the running thread
+			nt := len(s.threads)
+			for i := 1; i <= nt; i++ {
+				u := s.threads[(t.ID+i)%nt]
+				if u != t && s.enabled(u) {
+					en = append(en, u)
+				}
+			}
+		} else {
+			for _, u := range s.threads {
+				if u != t && s.enabled(u) {
+					en = append(en, u)
+				}
 			}
 		}
 		s.scratch = en[:0]
@@ -363,7 +407,7 @@ func (s *Sched) schedule(t *Thread) {
 			// Quiescence: virtual time advances to the earliest alarm. Alarms
 			// due at the same instant fire in an order chosen by the schedule.
 			ties := s.earliest()
-			k := s.choose(len(ties), len(ties))
+			k := s.chooseData(len(ties))
 			s.fire(ties[k])
 			continue
 		}
@@ -385,7 +429,18 @@ func (s *Sched) schedule(t *Thread) {
 			timerOpt = n
 			n++
 		}
-		k := s.choose(n, costly)
+		var k int
+		if s.opt.DelayBounding {
+			// option 0 (running thread, or first in round-robin order) is free
+			k = s.choose2(n, 1, true, func() int {
+				if timerOpt < 0 {
+					return 255
+				}
+				return timerOpt
+			}())
+		} else {
+			k = s.choose(n, costly)
+		}
 		if k == timerOpt {
 			s.fire(early)
 			continue
@@ -446,7 +501,7 @@ func GoNamed(name string, f func()) {
 // as a preemption.
 func Choose(n int) int {
 	t := current()
-	return t.s.choose(n, n)
+	return t.s.chooseData(n)
 }
 
 // Now returns the virtual clock in nanoseconds since the start of the execution.
